@@ -6,7 +6,8 @@ import json, re, subprocess, sys, os
 wt, target = sys.argv[1], sys.argv[2]
 log = sys.argv[3] if len(sys.argv) > 3 else "/tmp/baseline_run.log"
 env = dict(os.environ, CARGO_TARGET_DIR=target, CARGO_NET_OFFLINE="true", RUST_BACKTRACE="0")
-with open(log, "w") as fh:
+if os.environ.get("PARSE_ONLY") != "1":
+  with open(log, "w") as fh:
     subprocess.run(["cargo", "test", "--workspace", "--no-fail-fast", "--offline", "--", "--test-threads", "8"], cwd=wt, env=env, stdout=fh, stderr=subprocess.STDOUT)
 base = json.load(open("/root/.vp/BASELINE.json"))
 stable = set(base["stable_pass"])
@@ -20,7 +21,7 @@ for line in open(log, errors="replace"):
         continue
     if re.match(r"\s+Doc-tests", line):
         cur = None
-    m = re.match(r"test (\S+) \.\.\. (\w+)", line)
+    m = re.match(r"test (\S+)(?: - should panic)? \.\.\. (\w+)", line)
     if m and cur:
         res[cur + "::" + m.group(1)] = m.group(2)
 bad = sorted(t for t in stable if res.get(t) != "ok")
